@@ -1,14 +1,14 @@
 SPECIFICATION Spec
 CONSTANTS
- Content <- MCContent
- Systems <- MCSystemsDev
- BuildFiles <- MCBuildDev
+ Content <- MCContentL
+ Systems <- MCSystemsLDev
+ BuildFiles <- MCBuildLDev
  DevVolLost = FALSE
  DevVolOverwritten = FALSE
  DevUserRegen = FALSE
- DevRecentre = TRUE
- DevKeySites = FALSE
+ DevRecentre = FALSE
+ DevKeySites = TRUE
  DevProcForgets = FALSE
  LargeN = 16
-INVARIANT UserTemplateUnchanged
+INVARIANT UserTemplateWins
 CHECK_DEADLOCK FALSE
